@@ -42,6 +42,17 @@ pub fn run_main(dispatch: fn(usize, &[&str]) -> String) {
 '''
 
 
+# uom feature sets shared by the checks (one uom build each in the shared target directory)
+FEATURE_SETS = {
+    "default": ["autoconvert", "f32", "f64", "si", "std"],
+    "all": ["autoconvert", "f32", "f64", "i32", "i64", "u32", "u64", "isize", "bigint", "biguint",
+            "rational64", "bigrational", "complex32", "complex64", "si", "std", "serde"],
+    "noac": ["f32", "f64", "si", "std"],
+    "nostd": ["autoconvert", "f32", "f64", "si"],
+    "noac_nostd": ["f32", "f64", "si"],
+}
+
+
 class Harness:
     def __init__(self, name, features, prelude="", shards=None, default_features=False, extra_deps=""):
         self.name = name
